@@ -151,6 +151,16 @@ class Exprs:
         self._memo[l] = t
         return t
 
+    def initial(self, l):
+        """tree of the single full definition of a local even when it is later borrowed mutably
+        (iterators, vectors): its initial value"""
+        if len(self.defs.get(l, [])) == 1 and not self.partial.get(l):
+            d = self.defs[l][0]
+            if d[0] == "stmt":
+                return self.rvalue(d[3], self.f["locals"][l]["ty"])
+            return self.call(d[3], d[1])
+        return ("local", l)
+
     def place(self, pl):
         t = self.local(pl["l"])
         for e in pl["p"]:
